@@ -222,6 +222,8 @@ func runC13(r *Run) {
 	r.checkDecompress(P)
 	r.checkFetchEveryReference(P)
 	r.checkCountsAnchor(P)
+	// what is written into the files is what was queued: no partial hand-made copy of a model on the way
+	r.checkSameTypeCopies(P, pkgModels, pkgProvider)
 }
 
 // checkCompressWhole: what the writer stores is the complete gzip stream of exactly the file content — written, then
